@@ -386,7 +386,6 @@ theorem ko_of_mem {B : Nat → Nat} {old ks : List Node}
 
 theorem ko_nil (B : Nat → Nat) (old : List Node) : KO B old [] := fun x hx => by cases hx
 
-set_option maxHeartbeats 400000 in
 /-- **origins, sequences, every call.** -/
 theorem seqStep_ko (n : Node) (hk : kok n = true) (hseq : IsSeq n.kind) (op : SeqOp)
     (hop : kokL (placedSeq op) = true) (next : Nat) :
